@@ -113,8 +113,17 @@ func unconstrained(c Call, d Dump) bool {
 	switch c.Op {
 	case "mkdir", "ls", "lsrec", "tree", "subdirs", "findall", "clean":
 		return needDir(a)
-	case "write":
+	case "write", "createfile", "openfile":
 		return !a.empty && (d.throughFile(a.comps) || a.trail || d.kind(a.comps) == kDir)
+	case "movebetween":
+		// copy, then removal of the source
+		if c.P == c.Q || b.empty || a.empty {
+			return false
+		}
+		if len(a.comps) == 0 {
+			return true
+		}
+		return unconstrained(Call{Op: "copy", P: c.P, Q: c.Q}, d)
 	case "read", "size", "hash":
 		return needFile(a)
 	case "touch", "exists", "isfile", "isdir", "isempty":
@@ -290,11 +299,11 @@ func frameViolation(c Call, before, after Dump) string {
 		}
 	}
 	switch c.Op {
-	case "mkdir", "touch", "write", "rm", "clean":
+	case "mkdir", "touch", "write", "rm", "clean", "createfile", "openfile":
 		add(c.P)
 	case "copy", "copytofile", "copytodir":
 		add(c.Q)
-	case "move":
+	case "move", "movebetween":
 		add(c.P)
 		add(c.Q)
 	}
@@ -363,6 +372,33 @@ func frameViolation(c Call, before, after Dump) string {
 	return ""
 }
 
+// moveLost: a file that was at or below the source and is, after the call, neither where it was nor at the corresponding
+// place below the destination (dest/<rel> or dest/base(src)/<rel>).
+func moveLost(c Call, before, after Dump) string {
+	a, b := parseArg(c.P), parseArg(c.Q)
+	if a.empty || b.empty || len(a.comps) == 0 {
+		return ""
+	}
+	src := a.path()
+	for _, e := range before {
+		if e.Dir || (e.Path != src && !strings.HasPrefix(e.Path, src+"/")) {
+			continue
+		}
+		rel := strings.TrimPrefix(e.Path, src)
+		cands := []string{e.Path, strings.Join(b.comps, "/") + rel, strings.Join(join(b.comps, a.comps[len(a.comps)-1]), "/") + rel}
+		found := false
+		for _, p := range cands {
+			if x, ok := after.Lookup(strings.TrimPrefix(p, "/")); ok && !x.Dir && x.Data == e.Data {
+				found = true
+			}
+		}
+		if !found {
+			return e.Path
+		}
+	}
+	return ""
+}
+
 func destThroughFile(c Call, d Dump) bool {
 	x := c.P
 	if twoPaths(c.Op) {
@@ -409,6 +445,13 @@ func oracles(r *h.Run, p Program, ci int, s step, strict bool) (stop bool) {
 		if c.Op == "write" && s.res[i].Err == "" && !s.res[i].Hung && c.FaultAt == 0 && c.CancelAt == 0 && !unconstrained(c, s.before[i]) {
 			if e, ok := s.after[i].Lookup(parseArg(c.P).path()); !ok || e.Dir || e.Data != c.Data {
 				r.Fail("write-content-differs:"+bn, fmt.Sprintf("%s succeeded on the %s back end but the file holds %q", c, bn, e.Data), replay)
+			}
+		}
+		// mv: what a successful move moves is afterwards at the destination (or, when it was already there, still in place):
+		// no file of the source may simply be gone
+		if (c.Op == "move" || c.Op == "movebetween") && s.res[i].Err == "" && !s.res[i].Hung && c.FaultAt == 0 && c.CancelAt == 0 && !unconstrained(c, s.before[i]) {
+			if lost := moveLost(c, s.before[i], s.after[i]); lost != "" {
+				r.Fail("move-lost-source:"+c.Op+":"+bn, fmt.Sprintf("%s returned no error on the %s back end but %s is neither at the destination nor in place any more (before %s)", c, bn, lost, trunc(s.before[i].String(), 160)), replay)
 			}
 		}
 		if v := frameViolation(c, s.before[i], s.after[i]); v != "" && !s.res[i].Hung {
@@ -480,7 +523,7 @@ func coqTree(d Dump) string {
 var coqOps = map[string]string{"mkdir": "Mkdir", "touch": "Touch", "write": "Write", "read": "Read", "ls": "Ls", "lsrec": "LsRec",
 	"tree": "TreeL", "subdirs": "SubDirs", "findall": "FindAll", "exists": "Exists", "isfile": "IsFile", "isdir": "IsDir",
 	"isempty": "IsEmpty", "size": "Size", "hash": "Hash", "rm": "Rm", "clean": "Clean", "copy": "Copy", "copytofile": "CopyToFile",
-	"copytodir": "CopyToDir", "move": "Move", "relpath": "RelPath"}
+	"copytodir": "CopyToDir", "move": "Move", "relpath": "RelPath", "movebetween": "MoveBetween", "createfile": "CreateFile", "openfile": "OpenCreate"}
 
 func coqCall(c Call) string {
 	s := "(" + coqOps[c.Op] + " " + coqArg(c.P)
